@@ -173,13 +173,23 @@ var HeapLimit uint64 = 3 << 30
 func init() {
 	go func() {
 		var ms runtime.MemStats
+		var trackSt int64
+		var base uint64
 		for {
 			time.Sleep(100 * time.Millisecond)
-			if callStart.Load() == 0 {
+			st := callStart.Load()
+			if st == 0 {
+				trackSt = 0
 				continue
 			}
 			runtime.ReadMemStats(&ms)
-			if ms.HeapAlloc < HeapLimit {
+			if st != trackSt {
+				// first sight of this call: what the harness (model, snapshots,
+				// earlier results) holds already is not the call's doing
+				trackSt, base = st, ms.HeapAlloc
+				continue
+			}
+			if ms.HeapAlloc < base || ms.HeapAlloc-base < HeapLimit {
 				continue
 			}
 			w := currentCase.Load()
@@ -187,7 +197,7 @@ func init() {
 				continue
 			}
 			r := Replay{Check: w.check, Kind: "bounded", Calls: w.calls,
-				Message: fmt.Sprintf("a library call grew the heap to %d MiB", ms.HeapAlloc>>20)}
+				Message: fmt.Sprintf("the heap grew by %d MiB while one library call was running", (ms.HeapAlloc-base)>>20)}
 			w.c.hang(r)
 			fmt.Printf("VIOLATION %s/%s: %s\n  calls: %s\n", w.c.Property, w.check, r.Message, callsText(r.Calls))
 			FlushAll()
